@@ -46,11 +46,11 @@ valid = gen.valid_case
 def jobs(tier):
     if tier == 'quick':
         plan = [('json', 10, 4, 260), ('nested', 0, 0, 40), ('multiset', 8, 0, 50), ('xml', 5, 0, 40), ('csv', 0, 0, 25),
-                ('plist', 8, 0, 25), ('skewed', 6, 0, 40), ('padded', 0, 0, 30), ('builder', 10, 4, 60), ('pyobj', 8, 0, 40), ('growing', 0, 0, 40), ('dupsib', 0, 0, 60), ('pickle', 8, 0, 30), ('mixedlists', 0, 0, 40), ('records', 0, 0, 30)]
+                ('plist', 8, 0, 25), ('skewed', 6, 0, 40), ('padded', 0, 0, 30), ('builder', 10, 4, 60), ('pyobj', 8, 0, 40), ('growing', 0, 0, 40), ('dupsib', 0, 0, 60), ('pickle', 8, 0, 30), ('mixedlists', 0, 0, 40), ('records', 0, 0, 30), ('yamlstream', 0, 0, 30)]
         shards = 16
     else:
         plan = [('json', 25, 7, 6000), ('nested', 0, 0, 800), ('multiset', 10, 0, 1200), ('xml', 8, 0, 1000),
-                ('csv', 0, 0, 500), ('plist', 12, 0, 500), ('skewed', 8, 0, 800), ('padded', 0, 0, 600), ('builder', 20, 6, 1200), ('pyobj', 12, 0, 800), ('growing', 0, 0, 800), ('dupsib', 0, 0, 1000), ('pickle', 12, 0, 500), ('mixedlists', 0, 0, 800), ('records', 0, 0, 500)]
+                ('csv', 0, 0, 500), ('plist', 12, 0, 500), ('skewed', 8, 0, 800), ('padded', 0, 0, 600), ('builder', 20, 6, 1200), ('pyobj', 12, 0, 800), ('growing', 0, 0, 800), ('dupsib', 0, 0, 1000), ('pickle', 12, 0, 500), ('mixedlists', 0, 0, 800), ('records', 0, 0, 500), ('yamlstream', 0, 0, 500)]
         shards = 16
     js = []
     for s in range(shards):
@@ -73,6 +73,8 @@ def strategy_for(job):
         return gen.mixed_size_list_cases()
     if fam == 'records':
         return gen.record_cases()
+    if fam == 'yamlstream':
+        return gen.yaml_stream_cases()
     if fam == 'builder':
         return gen.builder_cases(job['max_leaves'] or 10, job['max_width'] or 4)
     if fam == 'pyobj':
